@@ -14,12 +14,17 @@ CONSTANT DumpCases
 R == INSTANCE Req
 
 \* "fn-concrete": a function with a concrete dependency - its trait goes through a NESTED trait-mode invocation
-Modes == {"fn", "fn-concrete", "mod", "trait-self", "di-static", "trait-ref-at", "di-dyn-at", "trait-self-at", "di-static-at"}
+\* "fn-at" / "mod-at": the async_trait attribute below entrait on a function / a module: it belongs to what is generated and must
+\* not stay on the item (async_trait rejects functions and modules)
+Modes == {"fn", "fn-concrete", "mod", "trait-self", "di-static", "trait-ref-at", "di-dyn-at", "trait-self-at", "di-static-at", "fn-at", "mod-at"}
 Rets == {"unit", "owned", "borrow-deps", "borrow-arg", "generic"}
-AsyncTrait(m) == m \in {"trait-ref-at", "di-dyn-at", "trait-self-at", "di-static-at"}
+AsyncTrait(m) == m \in {"trait-ref-at", "di-dyn-at", "trait-self-at", "di-static-at", "fn-at", "mod-at"}
 \* atargs: the async_trait attribute is written with arguments, `#[async_trait(?Send)]` (only in the async_trait modes)
 \* mockall: the `mockall` option is also given (its derivation is test-gated; the async rewrite must not depend on it)
-Inputs == { i \in [mode : Modes, ret : Rets, nosend : BOOLEAN, atargs : BOOLEAN, mockall : BOOLEAN] :
+\* recv: the receiver of the entraited trait's async method (`&self` / `self`): a by-value receiver moves the Impl<T> into the
+\* future, which must still be Send by default (the implementation's T gets a Send bound, since a "fix:" commit)
+Inputs == { i \in [mode : Modes, ret : Rets, nosend : BOOLEAN, atargs : BOOLEAN, mockall : BOOLEAN, recv : {"ref", "value"}] :
+            /\ (i.recv = "value" => i.mode \in {"trait-self", "trait-self-at"} /\ i.ret \in {"unit", "owned"} /\ ~i.mockall)
             /\ (i.atargs => AsyncTrait(i.mode))
             /\ (i.mockall => i.mode \in {"fn", "mod", "trait-self"} /\ i.ret \in {"unit", "owned"})
             /\ (AsyncTrait(i.mode) => ~i.nosend /\ i.ret \in {"unit", "owned", "borrow-arg"})
@@ -37,9 +42,9 @@ MakeTraitFnSig == /\ pc = "sig"
 Spec == Init /\ [][MakeTraitFnSig]_vars
 PredObs(x) == IF AsyncTrait(x.mode)
               THEN [expanded |-> TRUE, base_compiles |-> TRUE, w_output |-> TRUE, w_send |-> ~x.atargs, w_nonsend_body |-> x.atargs, kept_async |-> TRUE,
-                    futout |-> "", futsend |-> FALSE, attr_on_trait |-> TRUE, attr_on_impls |-> TRUE]
+                    futout |-> "", futsend |-> FALSE, attr_on_trait |-> TRUE, attr_on_impls |-> TRUE, attr_on_item |-> FALSE]
               ELSE [expanded |-> TRUE, base_compiles |-> TRUE, w_output |-> TRUE, w_send |-> ~x.nosend, w_nonsend_body |-> x.nosend, kept_async |-> FALSE,
-                    futout |-> RetText(x.ret), futsend |-> ~x.nosend, attr_on_trait |-> FALSE, attr_on_impls |-> FALSE]
+                    futout |-> RetText(x.ret), futsend |-> ~x.nosend, attr_on_trait |-> FALSE, attr_on_impls |-> FALSE, attr_on_item |-> FALSE]
 L1In(x) == [nosend |-> x.nosend, asynctrait |-> AsyncTrait(x.mode), rettext |-> RetText(x.ret)]
 Refines == pc = "done" => R!C12_Fail(L1In(i), PredObs(i)) = {}
 StepwiseIsPred == pc = "done" => sig.async = PredObs(i).kept_async /\ sig.out = PredObs(i).futout /\ sig.send = PredObs(i).futsend
